@@ -281,7 +281,10 @@ class SmpteTimeCode(_HHMMSSTimeExpression):
     if frame_rate is None:
       raise ValueError("Cannot compute SMPTE time code from seconds without frame rate")
 
-    frames = seconds * float(frame_rate)
+    if isinstance(seconds, (int, Fraction)):
+      frames = seconds * frame_rate
+    else:
+      frames = seconds * float(frame_rate)
 
     return SmpteTimeCode.from_frames(int(frames), frame_rate)
 
